@@ -23,7 +23,7 @@ package mapper
 // model, the field pointer, the function and the value.
 //@ ghost func condCol(interface{}, interface{}) string
 //@ ghost func condVal(interface{}, interface{}, interface{}) interface{}
-//@ func (Mapper).NewCondition
+//@ func (Mapper).NewCondition group c08
 //@ trusted "ColumnByPtr / ValidateCondition / NativeToOvs are reflection over the model and the schema; reads only"
 //@ modifies nothing
 //@ ensures_ok result0 != nil && fresh(result0) && result0.Column == condCol(data.Obj, field) && result0.Function == function && result0.Value == condVal(data.Obj, field, value)
